@@ -392,8 +392,10 @@ def drain : List (List Byte) → St → List Call → St × List Call
     let r := process s m
     drain ms r.1 (log ++ r.2.toList)
 
-/-- message loop of `mpt_stream_sync`: runs while handlers wait; result: state, calls, left the loop regularly? -/
-def syncLoop : List (List Byte) → St → Nat → List Call → St × List Call × Bool
+/-- message loop of `mpt_stream_sync`: runs while handlers wait; `fails t` = the command with tag `t` reports failure
+    (returns < 0): its reply is consumed and the command released like any other, then the loop is left
+    (`if (ret < 0) break`).  Result: state, calls, left the loop regularly? -/
+def syncLoop (fails : Nat → Bool) : List (List Byte) → St → Nat → List Call → St × List Call × Bool
   | q, s, 0, log => ({ s with inq := q }, log, true)
   | [], s, _, log => ({ s with inq := [] }, log, false)           -- no further input: `return count`
   | m :: ms, s, count + 1, log =>
@@ -402,18 +404,21 @@ def syncLoop : List (List Byte) → St → Nat → List Call → St × List Call
       match MsgId.buf2id (Reply.unmark (m.take s.idlen)) with
       | .ok (rid, _) =>
         match findActive (s.arr.getD []) rid with
-        | some t => syncLoop ms { s with arr := s.arr.map (deactivate · rid) } count (log ++ [⟨some t, some (m.drop s.idlen)⟩])
-        | none => syncLoop ms s (count + 1) log       -- no handler, no fallback: dropped
+        | some t =>
+          if fails t then
+            ({ s with arr := s.arr.map (deactivate · rid), inq := ms }, log ++ [⟨some t, some (m.drop s.idlen)⟩], true)
+          else syncLoop fails ms { s with arr := s.arr.map (deactivate · rid) } count (log ++ [⟨some t, some (m.drop s.idlen)⟩])
+        | none => syncLoop fails ms s (count + 1) log       -- no handler, no fallback: dropped
       | _ => ({ s with inq := m :: ms }, log, false)
 
 /-- `io::stream::sync` → `mpt_stream_sync(_srm, _idlen, &_wait, 0)` -/
-def sync (s : St) : St × List Call :=
+def sync (fails : Nat → Bool) (s : St) : St × List Call :=
   match s.arr with
   | none => (s, [])
   | some es =>
     if es.length = 0 ∨ s.idlen = 0 then (s, []) else
     let count := (active es).length
-    let r := syncLoop s.inq s count []
+    let r := syncLoop fails s.inq s count []
     let s1 := r.1
     let es1 := s1.arr.getD []
     -- "compress waiting return commands" when at most half of the entries still wait
@@ -435,19 +440,19 @@ inductive ROp where
   | sync (frames : List (List Byte))       -- peer frames arrive, then `sync`
   deriving Repr, DecidableEq
 
-def rstep (s : St) : ROp → St × List Call
+def rstep (fails : Nat → Bool) (s : St) : ROp → St × List Call
   | .await tag => match await s tag with
     | some (s', _) => (s', [])
     | none => (s, [])
   | .send d => ((send s d).1, [])
   | .answer fs => drain (s.inq ++ fs) s []
-  | .sync fs => sync { s with inq := s.inq ++ fs }
+  | .sync fs => sync fails { s with inq := s.inq ++ fs }
 
-def rrun : St → List ROp → St × List Call
+def rrun (fails : Nat → Bool) : St → List ROp → St × List Call
   | s, [] => (s, [])
   | s, op :: ops =>
-    let r := rstep s op
-    let r2 := rrun r.1 ops
+    let r := rstep fails s op
+    let r2 := rrun fails r.1 ops
     (r2.1, r.2 ++ r2.2)
 
 end Requester
